@@ -20,7 +20,7 @@ package ledger
 // order in which only one goroutine runs at a time; the order is a function of the op list.
 //
 // Op grammar (one line each; the result line is what the real code did):
-//   hist id=<n> lookback=<MaxAcctLookback>      fresh on-disk ledger                         -> ok
+//   hist id=<n> lookback=<MaxAcctLookback> cp=<CatchpointTracking 0|1|2>   fresh on-disk ledger      -> ok
 //   blk <spec>;<spec>...                        build one block with the real evaluator and AddValidatedBlock it
 //                                               -> events (`put r h`, and `bbegin lo hi` when the idle syncer picked it up)
 //   bq | tr                                     release the syncer / the tracker committer to its next stop -> events
@@ -135,6 +135,7 @@ type verifC09Run struct {
 	oracle  []string // digest per round
 	oracleD [][]string
 	hist    int
+	broken  bool // the live ledger failed (reload / add block): no further scheduling ops in this history
 }
 
 func (h *verifC09Run) liveFor(bq *blockQueue) bool {
@@ -853,9 +854,19 @@ func (u *verifC09Universe) learn(blk bookkeeping.Block) {
 }
 
 // addBlock builds the next block with the real evaluator from the specs and adds it (no WaitForCommit)
-func (h *verifC09Run) addBlock(specs []string) (basics.Round, int) {
+func (h *verifC09Run) addBlock(specs []string) (basics.Round, int, error) {
 	t, l := h.t, h.l
-	ev := nextBlock(t, l)
+	rnd := l.Latest()
+	hdr, err := l.BlockHdr(rnd)
+	if err != nil {
+		return 0, 0, fmt.Errorf("BlockHdr(%d): %w", rnd, err)
+	}
+	nextHdr := bookkeeping.MakeBlock(hdr).BlockHeader
+	nextHdr.TimeStamp = hdr.TimeStamp + 1
+	ev, err := eval.StartEvaluator(l, nextHdr, eval.EvaluatorOptions{Generate: true, Validate: true})
+	if err != nil {
+		return 0, 0, fmt.Errorf("StartEvaluator(%d): %w", rnd+1, err)
+	}
 	n := 0
 	for _, s := range specs {
 		if s == "" {
@@ -871,7 +882,7 @@ func (h *verifC09Run) addBlock(specs []string) (basics.Round, int) {
 	}
 	ub, err := ev.GenerateBlock(nil)
 	if err != nil {
-		t.Fatalf("c09: GenerateBlock: %v", err)
+		return 0, 0, fmt.Errorf("GenerateBlock: %w", err)
 	}
 	blk := ub.UnfinishedBlock()
 	prp := blk.BlockHeader.FeeSink
@@ -882,10 +893,10 @@ func (h *verifC09Run) addBlock(specs []string) (basics.Round, int) {
 	}
 	vvb, err := validateWithoutSignatures(t, l, blk)
 	if err != nil {
-		t.Fatalf("c09: validate: %v", err)
+		return 0, 0, fmt.Errorf("validate: %w", err)
 	}
 	if err = l.AddValidatedBlock(*vvb, agreement.Certificate{}); err != nil {
-		t.Fatalf("c09: AddValidatedBlock: %v", err)
+		return 0, 0, fmt.Errorf("AddValidatedBlock: %w", err)
 	}
 	b := vvb.Block()
 	h.blocks = append(h.blocks, b)
@@ -897,7 +908,7 @@ func (h *verifC09Run) addBlock(specs []string) (basics.Round, int) {
 		h.confs[r] = true
 		h.mu.Unlock()
 	}()
-	return r, n
+	return r, n, nil
 }
 
 // ------------------------------------------------------------------------------------------------ dump
@@ -1121,6 +1132,14 @@ func (h *verifC09Run) opHist(f map[string]string) string {
 	h.cfg = config.GetDefaultLocal()
 	h.cfg.MaxAcctLookback = uint64(verifC09Atoi(f["lookback"]))
 	h.cfg.Archival = false
+	if cp := f["cp"]; cp == "1" || cp == "2" {
+		// catchpoint tracking (1) / tracking + data files (2): first-stage rounds are those with (r + CatchpointLookback) %
+		// interval == 0, so with interval 4 every 4th round of the history is a first stage: the catchpoint tracker's trie and
+		// hash round ride in the commit transaction, finishFirstStage writes its bookkeeping in transactions of its own, and
+		// recoverFromCrash has work to do on the crash images taken in between
+		h.cfg.CatchpointTracking = int64(verifC09Atoi(cp))
+		h.cfg.CatchpointInterval = 4
+	}
 	// the crash of this harness is a PROCESS crash (the files are copied while the process lives), for which SQLite's
 	// consistency does not depend on fsync; synchronous=OFF only removes the fsync cost (the machine is shared)
 	h.cfg.LedgerSynchronousMode = int(db.SynchronousModeOff)
@@ -1135,6 +1154,7 @@ func (h *verifC09Run) opHist(f map[string]string) string {
 	h.failPut.Store(false)
 	h.failRound.Store(false)
 	h.oracle, h.oracleD = nil, nil
+	h.broken = false
 	h.arrB, h.arrT = make(chan verifC09Arr), make(chan verifC09Arr)
 	h.goB, h.goT = make(chan struct{}), make(chan struct{})
 	l, err := h.open(h.prefix)
@@ -1157,7 +1177,12 @@ func (h *verifC09Run) opHist(f map[string]string) string {
 func (h *verifC09Run) opBlk(specs string) string {
 	from := len(h.events)
 	idle := h.bqAt == ""
-	r, n := h.addBlock(strings.Split(specs, ";"))
+	r, n, err := h.addBlock(strings.Split(specs, ";"))
+	if err != nil {
+		// the LIVE ledger cannot take another block: the history ends here (its images are still reopened)
+		h.broken = true
+		return "LIVEERR " + strings.ReplaceAll(err.Error(), "\n", " ")
+	}
 	h.logEv(fmt.Sprintf("put %d %s", r, verifC09H(protocol.Encode(&h.blocks[r]))))
 	if idle {
 		h.waitB()
@@ -1190,16 +1215,25 @@ func (h *verifC09Run) opReload() string {
 	h.stepping.Store(true)
 	lc, _ := h.l.LatestCommitted()
 	h.logEv(fmt.Sprintf("reload %d %d %s", h.dbRoundMem(), lc, verifC09Err(err)))
+	if err != nil {
+		h.broken = true
+		return h.takeNew(from) + " ; RELOADERR " + strings.ReplaceAll(err.Error(), "\n", " ")
+	}
 	return h.takeNew(from)
 }
 
 func (h *verifC09Run) opEnd() string {
 	h.closeLive()
-	// the replay oracle: a fresh in-memory ledger that is simply given blocks 1..N, dumped after every block
+	// the replay oracle: a fresh ledger that is simply given blocks 1..N, dumped after every block
 	log := logging.NewLogger()
 	log.SetLevel(logging.Panic)
 	log.SetOutput(io.Discard)
-	ol, err := OpenLedger(log, filepath.Join(h.dir, "oracle"), true, h.genesis, h.cfg)
+	// (on disk as well: with the in-memory shared-cache SQLite a read that meets the oracle's own background writers fails
+	// with "table is locked", which would show up as a spurious ERR in its dump)
+	if err := os.MkdirAll(filepath.Join(h.dir, "oracle"), 0o755); err != nil {
+		h.t.Fatal(err)
+	}
+	ol, err := OpenLedger(log, filepath.Join(h.dir, "oracle", "ledger"), false, h.genesis, h.cfg)
 	if err != nil {
 		h.t.Fatalf("c09: oracle ledger: %v", err)
 	}
@@ -1209,6 +1243,7 @@ func (h *verifC09Run) opEnd() string {
 			if err := ol.AddBlock(h.blocks[r], agreement.Certificate{}); err != nil {
 				h.t.Fatalf("c09: oracle AddBlock(%d): %v", r, err)
 			}
+			ol.WaitForCommit(basics.Round(r))
 		}
 		d := verifC09Dump(ol, h.u)
 		h.oracleD = append(h.oracleD, d)
@@ -1298,7 +1333,7 @@ func (h *verifC09Run) opOpen(f map[string]string) (res string) {
 	if err := verifC09CopyDB(filepath.Join(it.dir, "ledger"), prefix, 't'); err != nil {
 		h.t.Fatal(err)
 	}
-	head := fmt.Sprintf("B=%d T=%d bmid=%v tmid=%v", B, T, ib.mid, it.mid)
+	head := fmt.Sprintf("B=%d T=%d confirmed=%d bmid=%v tmid=%v", B, T, h.confirmedBy(ib, it), ib.mid, it.mid)
 	defer func() {
 		if r := recover(); r != nil {
 			res = head + " PANIC " + strings.ReplaceAll(fmt.Sprint(r), "\n", " ")
@@ -1346,7 +1381,21 @@ func (h *verifC09Run) opOpen(f map[string]string) (res string) {
 			cont = "ok"
 		}
 	}
-	return fmt.Sprintf("%s latest=%d hashes=%s next=%s dump=%s want=%s cont=%s diff=%s", head, latest, hashes, next, dig, want, cont, diff)
+	// catchpoint bookkeeping after recoverFromCrash: the "writing first stage info" marker must be clear, and when the tracker DB
+	// round is a first-stage round of this configuration its first stage info must be recorded
+	cpx := ""
+	if h.cfg.CatchpointInterval > 0 && h.cfg.CatchpointTracking > 0 && l.catchpoint.catchpointStore != nil {
+		mark, err1 := l.catchpoint.catchpointStore.ReadCatchpointStateUint64(context.Background(), trackerdb.CatchpointStateWritingFirstStageInfo)
+		_, fs, err2 := l.catchpoint.catchpointStore.SelectCatchpointFirstStageInfo(context.Background(), basics.Round(T))
+		proto := config.Consensus[protocol.ConsensusCurrentVersion]
+		lb := proto.CatchpointLookback
+		if lb == 0 {
+			lb = proto.MaxBalLookback
+		}
+		isFS := T > 0 && (uint64(T)+lb)%h.cfg.CatchpointInterval == 0
+		cpx = fmt.Sprintf(" cpmark=%d/%s cpfs=%v/%v/%s", mark, verifC09Err(err1), fs, isFS, verifC09Err(err2))
+	}
+	return fmt.Sprintf("%s latest=%d hashes=%s next=%s dump=%s want=%s cont=%s%s diff=%s", head, latest, hashes, next, dig, want, cont, cpx, diff)
 }
 
 func verifC09KV(f []string) map[string]string {
@@ -1365,6 +1414,9 @@ func (h *verifC09Run) exec(op string) string {
 		return "-"
 	}
 	from := len(h.events)
+	if h.broken && (f[0] == "blk" || f[0] == "bq" || f[0] == "tr" || f[0] == "reload") {
+		return "SKIP"
+	}
 	switch f[0] {
 	case "hist":
 		return h.opHist(verifC09KV(f[1:]))
@@ -1473,7 +1525,13 @@ func (g *verifC09Gen) history(h *verifC09Run, out *vh.Out, id, nblocks, maxPairs
 		return res
 	}
 	lookback := []int{1, 1, 2, 2, 3, 4, 8}[r.Intn(7)]
-	emit(fmt.Sprintf("hist id=%d lookback=%d", id, lookback))
+	cp := 0
+	if id%3 == 2 {
+		cp = 1
+	} else if id%3 == 0 {
+		cp = 2
+	}
+	emit(fmt.Sprintf("hist id=%d lookback=%d cp=%d", id, lookback, cp))
 	added, reloaded := 0, false
 	burst := 0
 	for steps := 0; steps < 4000; steps++ {
@@ -1509,7 +1567,7 @@ func (g *verifC09Gen) history(h *verifC09Run, out *vh.Out, id, nblocks, maxPairs
 		if !reloaded && added >= 3 && added < nblocks && r.Chance(3) {
 			ch = append(ch, "reload")
 		}
-		if len(ch) == 0 {
+		if len(ch) == 0 || h.broken {
 			break
 		}
 		switch ch[r.Intn(len(ch))] {
@@ -1549,18 +1607,38 @@ func (g *verifC09Gen) history(h *verifC09Run, out *vh.Out, id, nblocks, maxPairs
 	}
 }
 
+// span: the event indices [lo, hi) during which version v of a store (commit indices `commits`) was its content
+func (h *verifC09Run) span(commits []int, v int) (int, int) {
+	lo := commits[v]
+	hi := len(h.events) + 1
+	if v+1 < len(commits) {
+		hi = commits[v+1]
+	}
+	return lo, hi
+}
+
+// confirmedBy: the highest round whose WaitForCommit had returned before the (latest possible) crash instant of the pair
+func (h *verifC09Run) confirmedBy(ib, it *verifC09Img) int {
+	blo, bhi := h.span(h.commitB, ib.ver)
+	tlo, thi := h.span(h.commitT, it.ver)
+	inst := bhi // (a pair with an older tracker image: the crash instant lies in the block version's interval)
+	if blo < thi && tlo < bhi && thi < bhi {
+		inst = thi
+	}
+	best := 0
+	for r, at := range h.confAt {
+		if at < inst && int(r) > best {
+			best = int(r)
+		}
+	}
+	return best
+}
+
 // pairs enumerates the crash image pairs to reopen: every pair of logical versions that coexisted at some instant
 // (real-time-consistent), one physical image combination each (all of them in the thorough tier), plus a few pairs with an
 // OLDER tracker image (the tracker store lagging behind the crash instant).
 func (h *verifC09Run) pairs(r *vh.Rng, maxPairs int) []string {
-	span := func(commits []int, v int) (int, int) {
-		lo := commits[v]
-		hi := len(h.events) + 1
-		if v+1 < len(commits) {
-			hi = commits[v+1]
-		}
-		return lo, hi
-	}
+	span := h.span
 	byVer := map[byte]map[int][]*verifC09Img{'b': {}, 't': {}}
 	for _, im := range h.imgs {
 		byVer[im.store][im.ver] = append(byVer[im.store][im.ver], im)
@@ -1645,14 +1723,14 @@ func TestVerifC09(t *testing.T) {
 		}
 		return
 	}
-	nhist := vh.Budget(6, 60)
+	nhist := vh.Budget(6, 24)
 	for i := 0; i < nhist; i++ {
 		g := &verifC09Gen{r: vh.NewRng(vh.Seed()*1000003 + uint64(i)*7919 + 9)}
 		nblocks := 10 + g.r.Intn(12)
 		maxPairs := 22
 		if vh.Thorough() {
 			nblocks = 12 + g.r.Intn(30)
-			maxPairs = 400
+			maxPairs = 150
 		}
 		g.history(h, out, i+1, nblocks, maxPairs)
 		out.Flush()
